@@ -40,11 +40,14 @@ func versionsMatch(model []*EdgeVer, real []RealEdge) bool {
 			} else if r.Created < v.CLo || r.Created > v.CHi {
 				continue
 			}
-			if v.DHi != 0 {
+			switch {
+			case v.Casc && r.Deleted != 0 && ((v.DHi != 0 && r.Deleted >= v.DLo) || (v.DHi == 0 && r.Deleted >= v.Deleted)):
+				// cascade deletion completed by recovery: any stamp not earlier than the original
+			case v.DHi != 0:
 				if r.Deleted < v.DLo || r.Deleted > v.DHi {
 					continue
 				}
-			} else if r.Deleted != v.Deleted {
+			case r.Deleted != v.Deleted:
 				continue
 			}
 			used[i], found = true, true
